@@ -221,7 +221,7 @@ def c08(chk):
                           "tearing the runtime down hung (mode %s, seed %d)" % (t["mode"], t["seed"]), t)
         for lk in t.get("leaks", []):
             kind = "address-not-free" if lk.startswith("address not free") else "service-clone-alive" if "clone" in lk else \
-                "subscription-open" if "subscription" in lk else "not-closed" if "not closed" in lk else "call-pending" if "pending" in lk else "other"
+                "stuck-thread" if "stuck inside a poll" in lk else "subscription-open" if "subscription" in lk else "not-closed" if "not closed" in lk else "call-pending" if "pending" in lk else "other"
             chk.violation("teardown:leak:%s:%s" % (t["mode"], kind), "%s (mode %s, seed %d)" % (lk, t["mode"], t["seed"]), t)
         for p in t["panics"]:
             chk.violation("teardown:panic:%s:%s" % (t["mode"], p.split("\n")[-1][:60]),
